@@ -288,7 +288,9 @@ def gen_cases(rng, thorough: bool) -> list:
                              ("string", "output"), ("unique", "Y")):
             for val in (seq_bad, seq_ok, A("f64", [1], 3), A("i64", [2], 3), {"r": "none"},
                         {"r": "scalar", "dt": "f64", "pid": 3}, {"r": "ragged"}, A("i64", [1, 2], 3),
-                        A("str", [2], 3), A("object", [2], 3)):
+                        A("str", [2], 3), A("object", [2], 3), A("object", [3], 3), A("object", [2, 1], 3),
+                        A("object", [], 3), A("str", [3], 3),
+                        {"r": "list", "xs": [A("object", [3], 3)]}):
                 add(sel, {"kind": "real", "op": opn}, {"names": [outname], "vals": [val]})
             add(sel, {"kind": "real", "op": opn}, {"names": ["nope"], "vals": [seq_ok]})
             add(sel, {"kind": "real", "op": opn}, {"raise": {"isExc": True, "id": rng.randrange(16)}},
@@ -335,6 +337,6 @@ def _rand_val(rng, R, depth):
     if depth > 0 and rng.random() < 0.25:
         return {"r": "list", "xs": [_rand_val(rng, R, depth - 1) for _ in range(rng.randrange(0, 3))]}
     v = dict(rng.choice(R))
-    if "pid" in v and v.get("dt") != "bool":
+    if "pid" in v and v.get("dt") != "bool" and 0 not in v.get("shape", []):  # empty arrays carry no content id
         v["pid"] = rng.randrange(1, 9)
     return v
